@@ -268,6 +268,8 @@ def run_value(ctx, spec, v, t=None):
 
 
 def shard(ctx):
+    from vlib import repotests
+    repotests.run(ctx, 'C06', ['represent-pure'])
     rng = ctx.rng
     n_models = ctx.budget(8000, 110000)
     for i in range(n_models):
